@@ -494,6 +494,11 @@ theorem servePOST_table (c : B64) (stateless bodyRead : Bool) (r : Req) :
       | none => simp
       | some m => simp only; split <;> next hx => simp [hx]
 
+theorem gateThen_bodyGate (r : Req) (k : Outcome) :
+    gateThen (bodyGate r) k = if tooLarge r = true then rej 413 else if r.readFails = true then rej 400 else k := by
+  unfold gateThen bodyGate
+  split <;> rename_i h <;> split at h <;> simp_all
+
 def acceptsBoth (r : Req) : Bool := (streamableAccepts r.accept).1 && (streamableAccepts r.accept).2
 
 /-- **The table.** Every check of the handler of kind `r.kind`, in the code's order, each with the answer the code
@@ -536,7 +541,10 @@ def checks (c : B64) (r : Req) : List (Bool × Outcome) :=
       | .post =>
         [ (decide (r.baseMedia ≠ appJson), rej 415),
           (!acceptsBoth r, rej 400),
-          (decide (r.sess = .unknown), rej 404) ] ++ postChecks c false false r
+          (decide (r.sess = .unknown), rej 404) ] ++
+        (if r.sess = .none ∧ r.noSessionIds = true then
+          [ (tooLarge r, rej 413), (r.readFails, rej 400) ] ++ postChecks c false true r
+         else postChecks c false false r)
       | .other => [ (true, .reject 405 none (some allowGetPostDelete)) ])
 
 /-- What the handler does when no check is violated. -/
@@ -578,7 +586,7 @@ theorem violation_status (c : B64) (r : Req) : verdict c r = firstViolation (che
     repeat' split
     all_goals simp_all
   | stateful =>
-    simp only [serveStreamable, hk, serveStateful, servePOST_table, List.cons_append, List.nil_append,
+    simp only [serveStreamable, hk, serveStateful, gateThen_bodyGate, servePOST_table, List.cons_append, List.nil_append,
       firstViolation_cons, firstViolation_append, acceptsBoth, reduceCtorEq, if_false]
     cases hm : r.method <;> cases hs : r.sess <;> simp only [firstViolation_cons, firstViolation_nil, firstViolation_append]
     all_goals repeat' split
@@ -651,7 +659,8 @@ theorem checks_noDispatch (c : B64) (r : Req) : NoDispatch (checks c r) := by
       | exact noDispatch_nil
       | exact postChecks_noDispatch c _ _ r
       | apply noDispatch_cons
-      | apply noDispatch_append)
+      | apply noDispatch_append
+      | split)
 
 theorem checks_reject (c : B64) (r : Req) (b : Bool) : ∀ x ∈ checks c r, x.2 ≠ .dispatched b :=
   fun x hx => checks_noDispatch c r x hx b
@@ -758,6 +767,19 @@ theorem postChecks_false {c : B64} {s br : Bool} {r : Req} (h : ∀ x ∈ postCh
   obtain ⟨⟨⟨h1, h2, h2', h3, h4, h5⟩, h6⟩, h7⟩ := h
   exact ⟨h1, h2, h2', by simpa using h3, h4, h5, fun m hm x hx => h6 x m hm hx, h7⟩
 
+/-- The body part of the stateful POST table (session-bound / new session, or the ephemeral session of a server that
+issues no session ids): nothing violated means within the limit, delivered completely, and the rest of `postChecks`. -/
+theorem statefulBody_false {c : B64} {r : Req}
+    (gp : ∀ x ∈ (if r.sess = .none ∧ r.noSessionIds = true then
+            [ (tooLarge r, rej 413), (r.readFails, rej 400) ] ++ postChecks c false true r
+          else postChecks c false false r), x.1 = false) :
+    tooLarge r = false ∧ r.readFails = false ∧ ∃ br, ∀ x ∈ postChecks c false br r, x.1 = false := by
+  split at gp
+  · simp only [List.cons_append, List.nil_append, List.forall_mem_cons] at gp
+    exact ⟨gp.1, gp.2.1, true, gp.2.2⟩
+  · obtain ⟨_, p2, p2', _⟩ := postChecks_false gp
+    exact ⟨by simpa using p2, by simpa using p2', false, gp⟩
+
 theorem versionGate_false {v : Bytes} (h : versionGateRejects v = false) :
     v = [] ∨ v ∈ supportedProtocolVersions ∨ bLt v protocolVersion20260728 = false := by
   unfold versionGateRejects at h
@@ -834,7 +856,8 @@ theorem dispatch_sound (c : B64) (r : Req) (hk : r.kind ≠ .sse) (b : Bool)
       simp only [hkind, hm, reduceCtorEq, if_false, List.forall_mem_append, List.forall_mem_cons, List.not_mem_nil,
         false_imp_iff, implies_true, and_true] at hall
       obtain ⟨⟨g1, g2, g3⟩, ⟨g5, g6, g8⟩, gp⟩ := hall
-      obtain ⟨p1, p2, p2', p3, p4, p5, p6, p7⟩ := postChecks_false gp
+      obtain ⟨p2, p2', br, gp'⟩ := statefulBody_false gp
+      obtain ⟨p1, _, _, p3, p4, p5, p6, p7⟩ := postChecks_false gp'
       have hacc : acceptsBoth r = true := by simpa using g6
       unfold acceptsBoth at hacc
       simp only [Bool.and_eq_true] at hacc
@@ -842,7 +865,7 @@ theorem dispatch_sound (c : B64) (r : Req) (hk : r.kind ≠ .sse) (b : Bool)
         host := hostGate_false g1, origin := g2, version := versionGate_false g3,
         method := hm, media := (by simpa using g5), accept := hacc,
         session := (by intro _; simpa using g8),
-        noLastEventId := p1, size := ⟨(by simpa using p2), p3⟩, delivered := (by simpa using p2'),
+        noLastEventId := p1, size := ⟨p2, p3⟩, delivered := p2',
         wellFormed := p4, noBatch := p5,
         perMessage := (by
           intro m hm' hr
@@ -950,7 +973,7 @@ theorem oversize_status (c : B64) (r : Req) (hk : r.kind ≠ .sse)
     | unknown => exact absurd hs hsess
     | none =>
       simp [serveStreamable, hhost, horigin, hver, hkind, serveStateful, hmeth, hmedia, hacc, hs, servePOST, hle,
-        bodyGate, h]
+        bodyGate, gateThen, h]
     | known =>
       simp [serveStreamable, hhost, horigin, hver, hkind, serveStateful, hmeth, hmedia, hacc, hs, servePOST, hle,
         bodyGate, h]
@@ -1052,11 +1075,16 @@ theorem f6_unrepaired_rejects :
     checkBindingUnrepaired idCodec wMsg.args (generateParamHeaders idCodec wProps wMsg.args)
       { path := [wRegion], header := wHeader } = some .missing := by decide
 
+/-- The ephemeral branch of `serveStatefulPOST` as it is in the pinned tree (before fix preflight-F30): every error of
+`ephemeralConnectOpts`, `*http.MaxBytesError` included, is answered 400. -/
+def ephemeralGateUnrepaired (r : Req) : Option Outcome :=
+  if tooLarge r || r.readFails then some (rej 400) else none
+
 /-- A dispatched request exists (so `dispatch_sound` is not vacuous), and a stateful handler refuses the same body. -/
 def wReq (k : HKind) : Req :=
   { kind := k, protectionDisabled := false, hasLocalAddr := true, listenerLoopback := true, hostLoopback := true,
     originRejects := false, method := .post, baseMedia := appJson, accept := [clientAccept],
-    version := protocolVersion20260728, sess := .none, lastEventId := false, limit := 0, bodyLen := 100,
+    version := protocolVersion20260728, sess := .none, noSessionIds := false, lastEventId := false, limit := 0, bodyLen := 100,
     declared := some 100, readFails := false, content := .msgs false [wMsg], mcpMethod := methodCallTool, mcpName := wTool, paramHdrs := [] }
 
 example : verdict idCodec (wReq .stateless) = .dispatched true := by decide
@@ -1066,10 +1094,20 @@ example : verdict idCodec { wReq .stateless with bodyLen := 4194305 } = rej 413 
 /-- the same oversize body uploaded without a declared length (chunked), stateless and on a stateful handler's new session -/
 example : verdict idCodec { wReq .stateless with bodyLen := 4194305, declared := none } = rej 413 := by decide
 example : verdict idCodec { wReq .stateful with bodyLen := 4194305, declared := none } = rej 413 := by decide
+/-- a stateful handler whose server issues no session ids serves the POST on an ephemeral session: 413 there too
+(REPAIRED behaviour, fix preflight-F30) -/
+example : verdict idCodec { wReq .stateful with noSessionIds := true, bodyLen := 4194305, declared := none } = rej 413 := by
+  decide
 /-- an upload that breaks off after 100 of 4000 declared bytes -/
 example : verdict idCodec { wReq .stateless with declared := some 4000, readFails := true } = rej 400 := by decide
 /-- a chunked body within the limit is dispatched -/
 example : verdict idCodec { wReq .stateless with declared := none } = .dispatched true := by decide
 example : verdict idCodec { wReq .stateless with mcpName := [] } = rejRpc 400 codeHeaderMismatch := by decide
+
+/-- **preflight-F30 (counter-example for the unrepaired code).** An oversize body sent to a stateful handler whose server
+issues no session ids is answered 400 by the unrepaired branch, where the size gate mandates 413 (`oversize_status`). -/
+theorem f30_unrepaired_answers_400 :
+    ephemeralGateUnrepaired { wReq .stateful with noSessionIds := true, bodyLen := 4194305 } = some (rej 400) ∧
+    bodyGate { wReq .stateful with noSessionIds := true, bodyLen := 4194305 } = some (rej 413) := by decide
 
 end Preflight
